@@ -6,7 +6,9 @@ model-checked; TLC generates (a) every history of <= 2/3 request classes (Reques
 Model through run / partial_run / run_one; Trace_Requests classifies every request with RunRequests.tla
 (ids unknown/duplicated/non-value, missing required inputs, dtype/rank/fixed-dim mismatch against the
 declared metadata) and requires `err` (never ok, never panic) for the invalid ones. The sequential histories are replayed with
-two builds of the harness: release, and `checked` (overflow checks + debug assertions)."""
+two builds of the harness: release, and `checked` (overflow checks + debug assertions). Thorough tier:
+PlanCacheInd.tla (PlanCache flattened, unbounded) - TLC checks the refinement, Apalache that its invariant
+(stored lengths = cardinalities of the stored id sets; PlanFitsRequest) is inductive."""
 import sys, os
 sys.path.insert(0, os.path.dirname(__file__))
 import vlib
@@ -22,6 +24,13 @@ def run(ctx):
         raise vlib.ToolError("re-run the tier with seed %s (requests are derived from the seed)" % ctx.replay.get("seed"))
     ctx.tlc_mc("graph/MC_PlanCache", "graph/MC_PlanCache.cfg" if ctx.quick else "graph/MC_PlanCache_thorough.cfg",
                workers=6, timeout=3000)
+    if not ctx.quick:
+        # beyond TLC's bounds: PlanCache refines the flattened, unbounded PlanCacheInd (TLC), whose IndInv
+        # (CacheConsistent /\ PlanFitsRequest) Apalache shows inductive: any number of requests, any interleaving
+        ctx.tlc_mc("graph/MC_PlanCacheRef", "graph/MC_PlanCacheRef.cfg", workers=6, timeout=1500,
+                   label="refinement PlanCache => PlanCacheInd!Spec (flattening of cached/cur/got) and IndInv in every reachable state")
+        ctx.apalache_inductive("graph/MC_PlanCacheInd", "ConstInit", "Init", "IndInit", "IndInv", timeout=1500,
+                               label="IndInv inductive; 3 threads, 3 input and 3 output ids, id sequences of length 1..3 incl. duplicates")
     h1 = ctx.path("class_hist.jsonl")
     n1 = ctx.tlc_generate("graph/RequestClasses", "graph/RequestClasses2.cfg" if ctx.quick else "graph/RequestClasses3.cfg", h1, workers=4)
     h2 = ctx.path("explicit_hist.jsonl")
